@@ -9,8 +9,8 @@ is_loaded` (`rule.py`) and `Aggregated.activation_degree` (`term.py`)
 
 The expression tree of a loaded antecedent as the evaluator sees it.  A *variable object* is a reference: its name;
 what the evaluator reads of it comes from the evaluation context `Lang.DegCtx` of the model (`enabled`, input /
-output variable, the membership of the current value in a term, the aggregated activation degree of a term) and from
-`hasTerms` (Python's truth value of a variable object is `Variable.__len__`, the number of its terms).  A hedge or
+output variable, the membership of the current value in a term, the aggregated activation degree of a term, and
+`hasTerms`: Python's truth value of a variable object is `Variable.__len__`, the number of its terms).  A hedge or
 term object is its name; a norm object is the function it computes.  `Proposition`, `Operator`, `Term`, `Hedge`
 and `Norm` objects have neither `__len__` nor `__bool__`: they are true, only `None` is false. -/
 
